@@ -127,6 +127,16 @@ func (g *CmdGen) win() string {
 	return fmt.Sprintf("archive=%d from=%d until=%d", g.archiveSel(), f, u)
 }
 
+// winValid: a selection that names an archive of g.lay, or all of them
+func (g *CmdGen) winValid() string {
+	f, u := g.window()
+	id := -1
+	if g.r.Chance(1, 2) {
+		id = g.r.Intn(g.lay.K())
+	}
+	return fmt.Sprintf("archive=%d from=%d until=%d", id, f, u)
+}
+
 func (g *CmdGen) winAll() string {
 	f, u := g.window()
 	return fmt.Sprintf("archive=-1 from=%d until=%d", f, u)
@@ -249,18 +259,25 @@ func genSumCase(r *Rng, prop string) []Op {
 		// "n" matches too and holds no whisper file of its own
 		defer func() {}()
 	}
+	// the sum of the sources and the destination are read concurrently and the first error
+	// wins: a case has one cause of failure (mismatched sources, a missing destination or a
+	// bad archive id), never two that race
+	oneFailure := false
 	for _, it := range items {
 		dir := strings.ReplaceAll(it, ".", "/")
 		n := 1 + r.Intn(4)
 		var files []string
+		mismatch := false
 		for f := 0; f < n; f++ {
 			name := fmt.Sprintf("f%d.wsp", f)
 			lay := g.lay
 			if r.Chance(1, 15) {
 				lay = genLayout(r, false)
+				mismatch = true
 			} else if f > 0 && r.Chance(1, 8) {
 				// a near miss: same steps, a longer last archive (equal windows for recent ranges)
 				lay = nearLayout(r, g.lay)
+				mismatch = true
 			}
 			ops = g.writeFile(ops, "src/"+dir+"/"+name, lay, 1+r.Intn(3))
 			if ok, _ := pathMatch(pat, name); ok {
@@ -271,8 +288,15 @@ func genSumCase(r *Rng, prop string) []Op {
 			// items are matched on their directory form relative to the base
 			itemSpecs = append(itemSpecs, strings.Join(files, "+")+">dst/"+dir+"/sum.wsp")
 		}
-		if prop == "C11" && r.Chance(1, 2) {
-			ops = g.writeFile(ops, "dst/"+dir+"/sum.wsp", g.lay, r.Intn(3))
+		if mismatch {
+			oneFailure = true
+		}
+		if prop == "C11" {
+			if mismatch || r.Chance(1, 2) {
+				ops = g.writeFile(ops, "dst/"+dir+"/sum.wsp", g.lay, r.Intn(3))
+			} else {
+				oneFailure = true
+			}
 		}
 	}
 	if itemPat == "*" {
@@ -287,6 +311,8 @@ func genSumCase(r *Rng, prop string) []Op {
 	if pat == "none*.wsp" || itemPat == "*" || itemPat == "zz*" {
 		// one failure at a time (source and destination are read concurrently)
 		w = g.winAll()
+	} else if oneFailure {
+		w = g.winValid()
 	}
 	common := fmt.Sprintf("items=%s itempat=%s srcpat=%s", is, itemPat, pat)
 	if prop == "C10" {
@@ -380,22 +406,37 @@ func genRemoteCase(r *Rng) []Op {
 func genLoudCase(r *Rng) []Op {
 	g := newCmdGen(r, "C16")
 	ops := []Op{{"reset", false}}
+	srcBad := false
 	if r.Chance(5, 6) {
 		ops = g.writeFile(ops, "src/a.wsp", g.lay, 1+r.Intn(3))
+	} else {
+		srcBad = true
 	}
 	ops = g.writeFile(ops, "src/it/f0.wsp", g.lay, 1)
 	if r.Chance(1, 6) {
 		// corrupt source
 		ops = append(ops, Op{"use src/a.wsp", false}, Op{"setdisk " + randHex(r, 1+r.Intn(60)), false})
+		srcBad = true
 	}
+	dstThere := false
 	if r.Chance(1, 2) {
 		lay := g.lay
 		if r.Chance(1, 4) {
 			lay = genLayout(r, false)
 		}
 		ops = g.writeFile(ops, "dst/a.wsp", lay, r.Intn(3))
+		dstThere = true
 	}
-	w := g.win()
+	// the two sides of diff, copy and sum-diff are read concurrently and whichever error
+	// comes first is reported: one cause of failure per case, so a selection that may name
+	// no archive goes only with files that are all there
+	wAny, wAll := g.win(), g.winAll()
+	pick := func(allThere bool) string {
+		if allThere {
+			return wAny
+		}
+		return wAll
+	}
 	to := ""
 	switch r.Intn(5) {
 	case 0:
@@ -405,21 +446,27 @@ func genLoudCase(r *Rng) []Op {
 	}
 	switch r.Intn(7) {
 	case 0:
-		ops = append(ops, Op{fmt.Sprintf("cmd view src=src/a.wsp header=1 %s%s", w, to), true})
+		ops = append(ops, Op{fmt.Sprintf("cmd view src=src/a.wsp header=1 %s%s", pick(!srcBad), to), true})
 	case 1:
-		ops = append(ops, Op{fmt.Sprintf("cmd viewraw src=src/a.wsp header=1 sort=1 %s%s", w, to), true})
+		ops = append(ops, Op{fmt.Sprintf("cmd viewraw src=src/a.wsp header=1 sort=1 %s%s", pick(!srcBad), to), true})
 	case 2:
-		ops = append(ops, Op{fmt.Sprintf("cmd diff pairs=src/a.wsp>dst/a.wsp %s%s", w, to), true})
+		if srcBad && !dstThere {
+			// a bad source and a missing destination would be two causes racing
+			ops = g.writeFile(ops, "dst/a.wsp", g.lay, 1)
+			dstThere = true
+		}
+		ops = append(ops, Op{fmt.Sprintf("cmd diff pairs=src/a.wsp>dst/a.wsp %s%s", pick(!srcBad && dstThere), to), true})
 	case 3:
-		ops = append(ops, Op{fmt.Sprintf("cmd copy pairs=src/a.wsp>dst/a.wsp %s copynan=%d %s%s", g.opts(), r.Intn(2), w, to), true})
+		ops = append(ops, Op{fmt.Sprintf("cmd copy pairs=src/a.wsp>dst/a.wsp %s copynan=%d %s%s", g.opts(), r.Intn(2), pick(!srcBad), to), true})
 		ops = g.fdisks(ops, true, "dst/a.wsp")
 	case 4:
-		ops = append(ops, Op{fmt.Sprintf("cmd sum items=src/it/f0.wsp> itempat=it srcpat=*.wsp header=1 %s%s", w, to), true})
+		ops = append(ops, Op{fmt.Sprintf("cmd sum items=src/it/f0.wsp> itempat=it srcpat=*.wsp header=1 %s%s", wAny, to), true})
 	case 5:
-		ops = append(ops, Op{fmt.Sprintf("cmd sumcopy items=src/it/f0.wsp>dst/it/sum.wsp itempat=it srcpat=*.wsp dest=sum.wsp %s %s%s", g.opts(), w, to), true})
+		ops = append(ops, Op{fmt.Sprintf("cmd sumcopy items=src/it/f0.wsp>dst/it/sum.wsp itempat=it srcpat=*.wsp dest=sum.wsp %s %s%s", g.opts(), wAny, to), true})
 		ops = g.fdisks(ops, true, "dst/it/sum.wsp")
 	default:
-		ops = append(ops, Op{fmt.Sprintf("cmd sumdiff items=src/it/f0.wsp>dst/it/sum.wsp itempat=it srcpat=*.wsp dest=sum.wsp %s%s", w, to), true})
+		// the destination of the sum is never there in this stream
+		ops = append(ops, Op{fmt.Sprintf("cmd sumdiff items=src/it/f0.wsp>dst/it/sum.wsp itempat=it srcpat=*.wsp dest=sum.wsp %s%s", wAll, to), true})
 	}
 	return ops
 }
